@@ -247,10 +247,14 @@ func (c *corpus) prepare(cs *corpusSchema, rng *RNG) {
 			// faults are injected into the richest accepted documents (populated collections)
 			docs := append([]amDoc(nil), cs.Docs[o.Name]...)
 			sort.SliceStable(docs, func(i, j int) bool { return len(docs[i].JSON()) > len(docs[j].JSON()) })
-			half := (c.opts.Faults + 1) / 2
+			nFaults := c.opts.Faults
+			if cs.AM.Tags["aimed"] > 0 {
+				nFaults = 200 // fixed schemas: every single-fault document docgen derives
+			}
+			half := (nFaults + 1) / 2
 			cs.Faults[o.Name] = dg.faultDocs(o, docs[0], half)
 			if len(docs) > 1 {
-				cs.Faults[o.Name] = append(cs.Faults[o.Name], dg.faultDocs(o, docs[1], c.opts.Faults-half)...)
+				cs.Faults[o.Name] = append(cs.Faults[o.Name], dg.faultDocs(o, docs[1], nFaults-half)...)
 			}
 		}
 	}
